@@ -71,7 +71,10 @@ Inductive ev := EW | ER | EWR.
 Definition has_w (e : ev) : bool := match e with ER => false | _ => true end.
 Definition has_r (e : ev) : bool := match e with EW => false | _ => true end.
 
-Record ain := mkIn { i_wen : bool; i_wdata : Z; i_ren : bool; i_rst : bool }.
+(* i_rst = write-domain reset (ClockDomain("write").rst), i_rrst = read-domain reset; both synchronous domains *)
+Record ain := mkIn { i_wen : bool; i_wdata : Z; i_ren : bool; i_rst : bool; i_rrst : bool }.
+(* inputs without read-domain reset *)
+Definition mkIn4 (wen : bool) (wdata : Z) (ren rst : bool) : ain := mkIn wen wdata ren rst false.
 
 Record afifo := mkA {
   pwb : Z;            (* produce_w_bin *)
@@ -141,7 +144,7 @@ Definition async_step (n width : Z) (st0 : afifo) (e : ev) (i : ain) : afifo :=
     (if R then nth (Z.to_nat (crn mod 2 ^ n)) (mem st) 0 else rdat st)
     (if R then (if rst then true else false) else af0 st)
     (if R then (if rst then true else af0 st) else af1 st)
-    (if R then rr else rrst st).
+    (if R then (if i_rrst i then false else rr) else rrst st).   (* the only read-domain register with a reset *)
 
 (* ---------------------------------------------------------------- interface monitor (specification side) *)
 (* Log of accepted writes and accepted reads, defined from interface signals only. *)
@@ -164,9 +167,31 @@ Definition arun (n width : Z) (tr : list (ev * ain)) (sm : afifo * mon) : afifo 
   fold_left (arun_step n width) tr sm.
 
 Definition no_rst (tr : list (ev * ain)) : Prop := Forall (fun x => i_rst (snd x) = false) tr.
+Definition no_rrst (tr : list (ev * ain)) : Prop := Forall (fun x => i_rrst (snd x) = false) tr.
+Definition all_rst (tr : list (ev * ain)) : Prop := Forall (fun x => i_rst (snd x) = true) tr.
 Definition no_write (tr : list (ev * ain)) : Prop := Forall (fun x => i_wen (snd x) = false) tr.
 Definition all_ren (tr : list (ev * ain)) : Prop := Forall (fun x => i_ren (snd x) = true) tr.
 Definition r_edges (tr : list (ev * ain)) : Z := Z.of_nat (length (filter (fun x => has_r (fst x)) tr)).
+
+Definition w_edges (tr : list (ev * ain)) : Z := Z.of_nat (length (filter (fun x => has_w (fst x)) tr)).
+
+(* state-only run *)
+Definition asteps (n width : Z) (tr : list (ev * ain)) (st : afifo) : afifo :=
+  fold_left (fun s x => async_step n width s (fst x) (snd x)) tr st.
+
+(* a write-domain reset episode long enough to flush both synchroniser chains: at least one write edge (write-side
+   registers cleared), then three read edges (produce chain, then the consume_r registers), then two write edges (consume chain) *)
+Definition suff_reset (tr : list (ev * ain)) : Prop :=
+  all_rst tr /\ exists t1 t2 t3, tr = t1 ++ t2 ++ t3 /\ 1 <= w_edges t1 /\ 3 <= r_edges t2 /\ 2 <= w_edges t3.
+
+(* constructor outcome with the exception class: FIFOInterface.__init__ raises TypeError for a negative width
+   after the depth has been rounded (ValueError first) *)
+Inductive ctor_res := CtorOk (d : Z) | CtorValueError | CtorTypeError.
+Definition ctor_full (buffered : bool) (width depth : Z) (exact : bool) : ctor_res :=
+  match (if buffered then async_buf_ctor depth exact else async_ctor depth exact) with
+  | None => CtorValueError
+  | Some d => if width <? 0 then CtorTypeError else CtorOk d
+  end.
 
 (* ---------------------------------------------------------------- AsyncFIFOBuffered, depth = 2^n + 1, n >= 1 *)
 Record bfifo := mkB {
@@ -186,7 +211,7 @@ Definition blvl_bits (n : Z) : Z := bit_length (2 ^ n + 1).
 Definition b_inner_ren (st : bfifo) (i : ain) : bool := i_ren i || negb (b_rdy st).
 (* r_consume_buffered = ((r_rdy - r_en) & r_rdy)[0] = r_rdy & ~r_en *)
 Definition b_rcb (st : bfifo) (i : ain) : bool := b_rdy st && negb (i_ren i).
-Definition b_inner_in (st : bfifo) (i : ain) : ain := mkIn (i_wen i) (i_wdata i) (b_inner_ren st i) (i_rst i).
+Definition b_inner_in (st : bfifo) (i : ain) : ain := mkIn (i_wen i) (i_wdata i) (b_inner_ren st i) (i_rst i) (i_rrst i).
 
 Definition bo_wrdy (n : Z) (st : bfifo) : bool := o_wrdy n (inner st).
 Definition bo_wlevel (n : Z) (st : bfifo) : Z := (o_wlevel (inner st) + Z.b2z (cb3 st)) mod 2 ^ blvl_bits n.
@@ -202,9 +227,9 @@ Definition buf_step (n width : Z) (st : bfifo) (e : ev) (i : ain) : bfifo :=
   let ld := R && b_inner_ren st i in
   mkB (async_step n width (inner st) e (b_inner_in st i))
       (if ld then o_rdata f else b_data st)
-      (if ld then o_rrdy f else b_rdy st)
-      (if ld then o_rrst f else b_rst st)
-      (if R then (o_rlevel n f + Z.b2z (b_rcb st i)) mod 2 ^ blvl_bits n else b_lvl st)
+      (if R && i_rrst i then false else if ld then o_rrdy f else b_rdy st)     (* r_data is reset_less *)
+      (if R && i_rrst i then false else if ld then o_rrst f else b_rst st)
+      (if R && i_rrst i then 0 else if R then (o_rlevel n f + Z.b2z (b_rcb st i)) mod 2 ^ blvl_bits n else b_lvl st)
       (if W then b_rcb st i else cb0 st)
       (if W then cb0 st else cb1 st)
       (if W then cb1 st else cb2 st)
